@@ -141,7 +141,7 @@ func runCheck(o checkOpts) (code int) {
 	w := loadWorld(o.repo, overlay, "")
 	a := newA(w, o.prop, o.tier)
 	safeRunProp(o.prop, a)
-	if !a.clean(o.verif) {
+	if !a.clean(o.verif) && o.variant == "" { // (the in-memory variants are meant to fail: no second attempt for them)
 		// Second attempt on the normal form with tail calls inlined (split functions glued together again). The
 		// normalisation preserves behaviour, so a clean result there decides the property for the program as written;
 		// anything else leaves the first result standing.
